@@ -94,7 +94,8 @@ def gen_program(rng, i):
     final_keys = [1, 2, 3] if rng.random() < 0.85 else rng.sample([1, 2, 3], 2)
     prog.append({"op": "sign_write", "keys": final_keys, "publish": "all", "link": rng.random() < 0.3})
     second = None
-    if rng.random() < 0.45 and inadequate is None and len(final_keys) == 3:
+    reserved = any(n in ("root", "snapshot", "timestamp", "targets") for n in it.roles)
+    if rng.random() < 0.45 and inadequate is None and len(final_keys) == 3 and not reserved:
         # a second generation: the written repository is loaded into a new editor, targets the roles already hold
         # are updated, removed, or updated and then removed; new ones are added and removed again
         second = []
